@@ -454,4 +454,18 @@ func procC02(t *Target, tier string, r *Result) {
 	r.Bound = "every scalar leaf position of two bases x every alternative value of its domain"
 }
 
-func init() { procs["C02"] = procC02 }
+// procSchema is the static part of C02 alone (used by C18 to confirm that no
+// attribute is silently missing once the offending field is excluded).
+func procSchema(t *Target, tier string, r *Result) {
+	compareTypes(r, t.Spec, expectedType(t.Spec), t.GetSchema().AttributeType(), "", "")
+	r.Evals++
+	r.States++
+	r.Transitions++
+	r.Nontrivial++
+	r.sample(map[string]string{"kind": "schema-walk", "case": t.Label, "root": t.Root})
+}
+
+func init() {
+	procs["C02"] = procC02
+	procs["SCHEMA"] = procSchema
+}
